@@ -12,7 +12,11 @@ OPC = {'text': 1, 'binary': 2, 'ping': 9, 'pong': 10, 'close': 8}
 def ctl_item(rng):
     kind = rng.choice(['ping', 'ping', 'pong'])
     n = rng.choice([0, 1, 2, 125, rng.randrange(0, 126)])
-    return {'kind': kind, 'hex': S.rand_bytes(rng, n).hex()}
+    it = {'kind': kind, 'hex': S.rand_bytes(rng, n).hex()}
+    if rng.random() < 0.15:
+        # a control payload of <= 125 bytes in the 16- or 64-bit length form
+        it['lenform'] = rng.choice([16, 64])
+    return it
 
 
 def data_item(rng, size, kind=None, maxfrag=6):
@@ -101,7 +105,7 @@ def encode_items(items, enc=None, stop_after_frags=None, transform=None):
         kind = it['kind']
         if kind in ('ping', 'pong'):
             data = bytes.fromhex(it['hex'])[:125]
-            emit(enc, OPC[kind], data)
+            emit(enc, OPC[kind], data, lenform=it.get('lenform'))
             enc.expected.append((kind, data))
             enc.expected_ends.append(len(enc.stream))
             continue
@@ -145,7 +149,7 @@ def encode_items(items, enc=None, stop_after_frags=None, transform=None):
                     continue
                 for c in inner[k]:
                     data = bytes.fromhex(c['hex'])[:125]
-                    emit(enc, OPC[c['kind']], data)
+                    emit(enc, OPC[c['kind']], data, lenform=c.get('lenform'))
                     enc.expected.append((c['kind'], data))
                     enc.expected_ends.append(len(enc.stream))
                     enc.probes['ctl_between_fragments'] += 1
